@@ -282,7 +282,9 @@ impl BitvectorExtended for Bitvector {
             ))
         } else {
             let result = self.clone().into_checked_mul(rhs).unwrap();
-            if result.clone().into_checked_sdiv(self).unwrap() != *rhs {
+            if result.clone().into_checked_sdiv(self).unwrap() != *rhs
+                || (!rhs.is_zero() && result.clone().into_checked_sdiv(rhs).unwrap() != *self)
+            {
                 Ok((result, true))
             } else {
                 Ok((result, false))
